@@ -666,6 +666,28 @@ fn run_case(line: &str) -> String {
                 format!("v {:x}", v.to_bits())
             })
         },
+        // pfl <fmt> <int> <frac> <exp>  -> outcome + the log of unchecked table reads (verif hook)
+        "pfl" => {
+            let int = decode_bytes(t[2]);
+            let frac = decode_bytes(t[3]);
+            let e = parse_i32(t[4]);
+            minimal_lexical::verif_log::reset();
+            let r = with_float!(t[1], F, {
+                panic::catch_unwind(AssertUnwindSafe(|| {
+                    let v: F = minimal_lexical::parse_float(int.iter(), frac.iter(), e);
+                    format!("v {:x}", v.to_bits())
+                }))
+                .unwrap_or_else(|_| "panic".to_string())
+            });
+            let n = minimal_lexical::verif_log::len().min(256);
+            let log: Vec<String> = (0..n)
+                .map(|k| {
+                    let (s, i, b) = minimal_lexical::verif_log::get(k);
+                    format!("{}:{}:{}", s, i, b)
+                })
+                .collect();
+            format!("{} log {}", r, if log.is_empty() { "-".to_string() } else { log.join(",") })
+        },
         // al <fmt> <int> <frac> <exp>  -> bits + allocation count on this thread
         "al" => {
             let int = decode_bytes(t[2]);
